@@ -239,3 +239,11 @@ claim("C34", "structural/term rules: role-based reading of the Lanczos step (sta
       "bounds, identically in both. Exactness in the limit, eigenvalue accuracy and the SLQ error estimates are not decided; the ELBO "
       "rules identify quantities by their local names and report undecided (exit 2, no alarm) if those are renamed.",
       TRUST, "DESIGN.md section 9.8")
+
+claim("C20", "structural rules over AST/CFG: role-based identification of R, R^dagger, N^-1 and the operators handed to CG; nullness rule for documented-optional arguments; term inlining of the classic curvature",
+      "Decides only the assembly clause: nifty.re wiener_filter_posterior builds j = R^dagger N^-1 d and solves (R^dagger N^-1 R + 1) m = j "
+      "in signal space, solves (R R^dagger + N) x = d and returns R^dagger x in data space, with R^dagger the conjugated linear transpose of "
+      "the same (linearised) forward map, raises when CG fails, draws mirrored samples at the posterior mean, and defaults its "
+      "documented-optional arguments before use; the classic WienerFilterCurvature is R^dagger N^-1 R + S^-1 made invertible with S^-1 as "
+      "preconditioner. That the solvers reach the exact posterior, the sample covariances and the agreement with MGVI/MAP are "
+      "numerical and not decided.", TRUST, "DESIGN.md section 9.8")
